@@ -226,7 +226,7 @@ def gen_size(r, k, max_seg, limit=300 * 1024, small_bias=0.5):
         return r.choice(cand)
     cand = [max_seg - 1, max_seg, max_seg + 1, 2 * max_seg, 2 * max_seg + 1, 3 * max_seg - 1,
             51199, 51200, 51201, 65535, 65536, 65537, 102400, 131071, 131072, 131073, 196609,
-            r.randrange(1000, 20000), r.randrange(20000, limit), limit]
+            r.randrange(1000, 20000), r.randrange(min(20000, limit), limit + 1), limit]
     cand = [x for x in cand if 0 <= x <= limit]
     return r.choice(cand)
 
@@ -438,9 +438,13 @@ def encrypt_case(ctx, i):
     ref = o_aes_ctr(o_key(k, n, o_segsize(max_seg, size, k), secret, data), data)
     ref_b = b"".join(ref[a:b] for a, b in expect_ranges)
     whole_b = b"".join(whole[a:b] for a, b in expect_ranges)
-    if si != o_si(key) or si_b != si:
-        ctx.oracle_fail("storage-index-not-hash-of-key", "EncryptAnUploadable.get_storage_index() differs from storage_index_hash(convergent key)",
-                        case=case, expected=o_si(key).hex(), observed=[si.hex(), si_b.hex()])
+    key_b = fired(ub.get_encryption_key())
+    if key_b != key:
+        ctx.oracle_fail("convergent-key-depends-on-chunking", "the short-reading multi-piece uploadable derives a different key than upload.Data",
+                        case=case, expected=key.hex(), observed=key_b.hex())
+    if si != o_si(key) or si_b != o_si(key_b):
+        ctx.oracle_fail("storage-index-not-hash-of-key", "EncryptAnUploadable.get_storage_index() differs from storage_index_hash(key)",
+                        case=case, expected=[o_si(key).hex(), o_si(key_b).hex()], observed=[si.hex(), si_b.hex()])
     if got != whole_b:
         ctx.oracle_fail("chunked-encryption-depends-on-chunking",
                         "ciphertext read in pieces (CHUNKSIZE=%r, %d read_encrypted calls) differs from the ciphertext read in one piece" % (chunk_size, len(reads)),
@@ -583,22 +587,32 @@ def grid_case(ctx, g, i, scratch):
 # ---------------------------------------------------------------------------------------------
 # (d) literal files
 # ---------------------------------------------------------------------------------------------
-def literal_case(ctx, g0, g, size, j, scratch):
-    """Upload `size` bytes on the grid without servers (g0) and on the normal one (g)."""
-    from allmydata import uri
-    from allmydata.immutable.literal import LiteralFileNode
+def literal_inputs(ctx, size, j):
     r = ctx.rng("lit", size, j)
     data = rbytes(r, size)
     if j == 0 and size:
         data = bytes([0xff]) * size            # all-ones: every quintet 31
     secret = gen_secret(r)
-    case = {"part": "literal", "size": size, "j": j, "data": data.hex(), "secret": secret.hex()}
     kind = ("data", "filehandle", "chunky")[j % 3]
     sched = gen_sched(r, size)
+    return r, data, secret, kind, sched
+
+
+def literal_upload_on_servers(ctx, g, size, j, scratch):
+    """The cap the grid WITH servers gives (grids cannot be nested: the two grids are used one after the other)."""
+    r, data, secret, kind, sched = literal_inputs(ctx, size, j)
+    return grid_upload(g, kind, data, secret, sched, scratch, ctx.rng("lit-pieces", size, j), "lit")
+
+
+def literal_case(ctx, g0, cap, size, j):
+    """`cap` = what the grid with servers returned for the case; g0 = a grid without any storage server."""
+    from allmydata import uri
+    from allmydata.immutable.literal import LiteralFileNode
+    r, data, secret, kind, sched = literal_inputs(ctx, size, j)
+    case = {"part": "literal", "size": size, "j": j, "data": data.hex(), "secret": secret.hex()}
     ctx.case(("lit", data, secret, kind), kind="literal:%s" % ("<=55" if size <= 55 else ">55"))
     terms, info = [], []
     out0 = g0.run(g0.upload_results(make_uploadable(kind, data, secret, sched, rng=ctx.rng("lit-pieces", size, j))), outcome=True)
-    cap = grid_upload(g, kind, data, secret, sched, scratch, ctx.rng("lit-pieces", size, j), "lit")
     is_lit = cap.startswith(b"URI:LIT:")
     if is_lit != (size <= 55):
         ctx.oracle_fail("literal-threshold-wrong", "a %d-byte file got %s cap (literal iff size <= 55)" % (size, "a literal" if is_lit else "a CHK"),
@@ -687,18 +701,22 @@ def run_grid(ctx, scratch):
     ctx.correspondence("literal-cap-vs-model")
     terms, info = [], []
     lterms, linfo = [], []
+    lit = [(size, j) for size in range(0, 60)
+           for j in range(ctx.n(1, 6) if size not in (0, 54, 55, 56, 57) else ctx.n(3, 12))]
+    caps = {}
     with G.Grid(num_servers=10, k=3, n=10, happy=HAPPY, max_segment_size=131072, seed=ctx.seed) as g:
         for i in range(ctx.n(22, 220)):
             t, inf = grid_case(ctx, g, i, scratch)
             terms += t
             info += inf
         g.set_encoding(k=3, n=10, happy=HAPPY, max_segment_size=131072)
-        with G.Grid(num_servers=0, k=3, n=10, happy=HAPPY, max_segment_size=131072, seed=ctx.seed) as g0:
-            for size in range(0, 60):
-                for j in range(ctx.n(1, 6) if size not in (0, 54, 55, 56, 57) else ctx.n(3, 12)):
-                    t, inf = literal_case(ctx, g0, g, size, j, scratch)
-                    lterms += t
-                    linfo += inf
+        for size, j in lit:
+            caps[(size, j)] = literal_upload_on_servers(ctx, g, size, j, scratch)
+    with G.Grid(num_servers=0, k=3, n=10, happy=HAPPY, max_segment_size=131072, seed=ctx.seed) as g0:
+        for size, j in lit:
+            t, inf = literal_case(ctx, g0, caps[(size, j)], size, j)
+            lterms += t
+            linfo += inf
     t, inf = malformed_literal_caps(ctx)
     lterms += t
     linfo += inf
@@ -782,8 +800,9 @@ def replay(ctx, record):
             terms, info = grid_case(ctx, g, c["i"], scratch)
     elif part == "literal":
         with G.Grid(num_servers=10, k=3, n=10, happy=HAPPY, max_segment_size=131072, seed=ctx.seed) as g:
-            with G.Grid(num_servers=0, k=3, n=10, happy=HAPPY, max_segment_size=131072, seed=ctx.seed) as g0:
-                terms, info = literal_case(ctx, g0, g, c["size"], c["j"], scratch)
+            cap = literal_upload_on_servers(ctx, g, c["size"], c["j"], scratch)
+        with G.Grid(num_servers=0, k=3, n=10, happy=HAPPY, max_segment_size=131072, seed=ctx.seed) as g0:
+            terms, info = literal_case(ctx, g0, cap, c["size"], c["j"])
     elif part == "random":
         random_keys(ctx)
     else:
